@@ -34,6 +34,25 @@ MR x CAT, CAT x MR, MR x MR, CA, numeric array alone and by CAT; this check's ar
 of C19's generator with zero-based / sparse / negative element ids) writes such references - negative
 ints and numeric strings in -n..-1 and below -n (the class no stream produced before), numbers >= n,
 non-numeric strings - at the front of / inside explicit lists and as element-transform keys.
+
+(d) ONE transforms dict object for a sequence of cubes (added after seeded change C07-7:
+`_ElementIdShim.shimmed_dimension_transforms_dict` lost the copy of the 'order' level, so the subvariable
+aliases an explicit order's element ids translate to were written INTO THE CALLER'S dict; the next cube given
+the same dict - another array variable, other aliases - found the first cube's aliases, ignored them as unknown
+ids and came out in payload order.  Every case of (a)-(c) builds one cube on a deep copy and cannot see
+that).  "In the listed order" refers to the list the caller wrote, so the property must hold for cube k of a
+deck exactly as for cube k alone.  Class added: 2..3 cubes built one after another over DIFFERENT array
+variables (the cube sequences of C09's leg (c): MR strands, MR x CAT, CAT x MR, CA, MR x MR, numeric arrays,
+3-D cubes; `c09.seq_cube`) with one transforms object - the whole dict, only its dimension dicts, or only the
+dicts below the dimension level ('order', 'elements') being the same object for every cube; built through
+`impl.Cube` without the deep copy `impl.partition` makes, read interleaved / after all are built / in reverse,
+or as the cubes of a CubeSet given [t, t] - carrying explicit orders spelled by element id (int / string),
+subvariable id, alias, category id, with repeats and references that name nothing, anchored insertions (view
+and transforms), hides, prune.  Required of every cube and slice: (rel) the same orders in both formats,
+labels, codes, payload_order, shape as a fresh cube given its own pristine copy of the transforms as written,
+and (abs) on array axes the displayed base elements in the order the property text gives (listed first, first
+mention wins, unknown ignored, then the unlisted in payload order; the named item decided by the generator's
+record).  Distribution keys `shared-transforms:*`; machinery shared with C08's leg (d).
 """
 import copy
 import itertools
@@ -41,6 +60,7 @@ import json
 import random
 
 from harness import core, gen, impl
+from harness.props import c09                 # generator of cube sequences over different array variables (leg (d))
 from harness.props import order_util as ou
 
 PID = "C07"
@@ -716,6 +736,362 @@ def run_cases(rep, cases, probe=False):
 
 
 # ------------------------------------------------------------------------------------
+# (d) ONE transforms dict object for a sequence of cubes over DIFFERENT array variables
+# ------------------------------------------------------------------------------------
+#
+# "In the listed order" refers to the list the CALLER wrote.  A client applies one transforms
+# dict (two waves of a tracker, a CubeSet given [t, t]) to several cubes, so the order of cube k
+# of such a sequence must be the order of cube k alone: a function of its response and of the
+# transforms AS WRITTEN, not of the cubes the same dict object met before.  The cube sequences
+# (other array variable - other subvariable aliases, other number of items - per cube; element
+# ids / subvariable ids shared) come from the generator of C09's leg (c); the transforms are this
+# property's: explicit orders by element id / subvariable id / alias / category id, repeats and
+# stale ids, anchored insertions (view and transforms), hides, prune.
+#   (rel)  every cube (every slice) shows the same orders in both formats, labels, codes,
+#          payload_order and shape as a fresh cube on the same response given its OWN deep copy
+#          of the transforms as written;
+#   (abs)  on an array axis the displayed base elements stand in the order the property text
+#          gives - listed ones first (first mention wins, references that name nothing ignored),
+#          then the unlisted in payload order - the listed element being decided by the
+#          generator's own record (c09.seq_resolve; lists with a reference only the id cascade
+#          of C19 can read are left to (rel)).
+# The machinery (sharing levels, runner, comparison) is shared with C08's leg (d).
+
+SEQ_LEG = "shared-transforms"
+N_SEQ_QUICK = 200
+SEQ_AXIS_KEYS = ["rows_dimension", "columns_dimension"]
+SEQ_SHARES = [("whole", 6), ("dimension", 2), ("order", 2)]
+SEQ_READS = [("interleaved", 6), ("build-all-then-read", 2), ("build-all-then-read-reversed", 1), ("CubeSet", 2)]
+
+
+def seq_ref_pools(cubes, idx):
+    """([(how, key)] every spelling by which a base element of the axis transforms key #idx faces in the
+    cubes of the sequence can be named, the element-id / subvariable-id spellings of the FIRST cube's array
+    items (what a caller who wrote the transforms with the first cube in mind uses))"""
+    pool = c09.seq_key_pool(cubes, idx)
+    first = c09.seq_key_pool(cubes[:1], idx)
+    by_id = [p for p in first if p[0] in ("eid", "svid")] or [p for p in pool if p[0] in ("eid", "svid")]
+    return pool, by_id
+
+
+def seq_refs(rng, pool, by_id, n, stats, slot, p_id=0.75):
+    """n references for a list slot: element ids / category ids as int or decimal string, subvariable ids,
+    aliases; now and then one that names nothing"""
+    out = []
+    for _ in range(n):
+        r = rng.random()
+        if r < 0.06 or not pool:
+            out.append(rng.choice([999, "999", "nope", -7]))
+            stats.append(slot + ":names-nothing")
+            continue
+        how, key = rng.choice(by_id if (r < p_id and by_id) else pool)
+        out.append(int(key) if how in ("eid", "catid") and rng.random() < 0.5 else key)
+        stats.append("%s:%s" % (slot, how))
+    return out
+
+
+def seq_insertions(rng, prefix, cat_ids):
+    """anchored subtotal insertions over category ids (top / bottom / an element in int or string
+    spelling / stale / null anchors; with ids, without, or partly)"""
+    ids_mode = rng.choice(["all", "none", "some"])
+    nums = rng.sample(range(1, 9), 3)
+    out = []
+    for k in range(rng.choice([1, 1, 2, 3])):
+        a = rng.random()
+        anchor = ("top" if a < 0.15 else "bottom" if a < 0.3 else "Top" if a < 0.35 else None if a < 0.4
+                  else 999 if a < 0.47 else rng.choice(cat_ids))
+        if isinstance(anchor, int) and rng.random() < 0.3:
+            anchor = str(anchor)
+        d = {"function": "subtotal", "name": "%s_%d" % (prefix, k), "anchor": anchor,
+             "args": rng.sample(cat_ids, rng.randint(1, min(3, len(cat_ids))))}
+        if ids_mode == "all" or (ids_mode == "some" and rng.random() < 0.5):
+            d["id"] = nums[k]
+        out.append(d)
+    return out
+
+
+def seq_add_view_insertions(rng, spec, p=0.4):
+    """insertions defined on the variable (its view) for the categorical dimensions of the cube's response"""
+    done = False
+    for n, dd in enumerate(spec["response"]["result"]["dimensions"]):
+        t = dd.get("type") or {}
+        cats = t.get("categories") or []
+        if t.get("class") != "categorical" or any(c.get("selected") for c in cats) or rng.random() >= p:
+            continue
+        valid = [c["id"] for c in cats if not c.get("missing")]
+        if valid:
+            dd.setdefault("references", {})["view"] = {
+                "transform": {"insertions": seq_insertions(rng, "v%d" % n, valid)}}
+            done = True
+    return done
+
+
+def seq_cubes(rng, n_cubes, mode, p_view=0.4):
+    """2..3 cubes over different array variables (generator of C09's leg (c)); the third one is the first
+    once more 30% of the time"""
+    names, weights = zip(*c09.SEQ_LAYOUTS)
+    cubes, stats = [], []
+    for j in range(n_cubes):
+        if j == 2 and rng.random() < 0.3:
+            cubes.append(copy.deepcopy(cubes[0]))
+            cubes[-1]["repeat_of"] = 0
+            continue
+        cubes.append(c09.seq_cube(rng, j, rng.choices(names, weights)[0], mode))
+        if seq_add_view_insertions(rng, cubes[-1], p_view):
+            stats.append("view-insertions")
+    return cubes, stats
+
+
+def seq_decorate(rng, t, pool, by_id, idx, stats, p_ins=0.35):
+    """hides / prune / transforms insertions of one dimension (in place on t)"""
+    if pool and rng.random() < 0.25:
+        how, key = rng.choice(by_id if (by_id and rng.random() < 0.7) else pool)
+        t["elements"] = {key: {"hide": True}}
+        stats.append("hide:" + how)
+    if rng.random() < 0.25:
+        t["prune"] = True
+    cat_ids = [int(k) for how, k in pool if how == "catid"]
+    if cat_ids and rng.random() < p_ins:
+        t["insertions"] = seq_insertions(rng, "tx%d" % idx, cat_ids)
+        stats.append("transforms-insertions")
+
+
+def seq_dim_transforms(rng, cubes, idx, stats):
+    """what the caller writes for the rows (idx 0) / columns (idx 1) of the whole sequence"""
+    pool, by_id = seq_ref_pools(cubes, idx)
+    t = {}
+    r = rng.random()
+    if r < 0.88 and pool:
+        ids = seq_refs(rng, pool, by_id, rng.choice([1, 2, 2, 3, 3, 4]), stats, "explicit")
+        if rng.random() < 0.2:
+            ids.append(rng.choice(ids))                      # named twice: the first mention wins
+            stats.append("explicit:repeat")
+        t["order"] = {"type": "explicit", "element_ids": ids}
+    elif r < 0.94:
+        t["order"] = {"type": "payload_order"}
+    seq_decorate(rng, t, pool, by_id, idx, stats)
+    return t
+
+
+def seq_sharing(rng, dims):
+    """how the sequence is handed its transforms"""
+    same_object = dims == [0] and rng.random() < 0.15
+    share = rng.choices(*zip(*SEQ_SHARES))[0]
+    read = rng.choices(*zip(*SEQ_READS))[0]
+    return {"same_object": same_object, "share": share, "read": read}
+
+
+def gen_seq_case(rng, k):
+    mode = rng.choice(["numeric", "token", "token"])
+    cubes, stats = seq_cubes(rng, rng.choice([2, 2, 2, 3]), mode)
+    which = rng.random()
+    dims = [0, 1] if which < 0.45 else [0] if which < 0.8 else [1]
+    transforms = {}
+    for idx in dims:
+        transforms[SEQ_AXIS_KEYS[idx]] = seq_dim_transforms(rng, cubes, idx, stats)
+    case = {"leg": SEQ_LEG, "k": k, "cubes": cubes, "transforms": transforms, "svid_mode": mode, "stats": stats}
+    case.update(seq_sharing(rng, dims))
+    return case
+
+
+def seq_for_cube(case):
+    """-> f(j): the transforms object handed to cube j of the sequence.  One deep copy of the transforms as
+    written is made for the whole sequence; `share` says which level of it is the SAME OBJECT for every
+    cube: the whole dict, the dimension dicts (own top-level dict per cube), or the dicts / lists below
+    the dimension level (own top-level and dimension dicts per cube, one 'order' / 'elements' object)"""
+    t = copy.deepcopy(case["transforms"])
+    if case.get("same_object"):
+        t["columns_dimension"] = t["rows_dimension"]          # the same dict object for both axes
+    share = case.get("share", "whole")
+    if share == "whole":
+        return lambda j: t
+    if share == "dimension":
+        return lambda j: dict(t)
+    return lambda j: {key: dict(d) for key, d in t.items()}
+
+
+def seq_run(case, shared, **cube_kw):
+    """observations [cube][slice] -> dict.  `shared`: the cubes are handed one transforms object (see
+    `seq_for_cube`) and read in the order of the case; else every cube gets its own pristine deep copy of
+    the transforms as written (c09.seq_written).  Read 'CubeSet': the cubes are those a CubeSet builds from
+    the list of responses and the list [t, t(, t)] (reference: a CubeSet given a pristine copy per cube)."""
+    specs = case["cubes"]
+    tr = seq_for_cube(case) if shared else (lambda j: c09.seq_written(case))
+    if case["read"] == "CubeSet":
+        def cubes_of_set():
+            cs = impl.CubeSet([copy.deepcopy(s["response"]) for s in specs],
+                              transforms=[tr(j) for j in range(len(specs))], population=cube_kw.get("population"),
+                              min_base=0)
+            return list(cs._cubes)
+        r = impl.guarded(cubes_of_set)
+        if r[0] != "ok":
+            return [[{"cube_set": ("exc", r[1])}] for _ in specs]
+        return [c09.seq_read(("ok", cube), spec) for cube, spec in zip(r[1], specs)]
+    mk = lambda j: impl.guarded(  # noqa: E731
+        lambda: impl.Cube(copy.deepcopy(specs[j]["response"]), transforms=tr(j), **cube_kw))
+    if case["read"] == "interleaved" or not shared:
+        return [c09.seq_read(mk(j), specs[j]) for j in range(len(specs))]
+    built = [mk(j) for j in range(len(specs))]
+    idxs = list(range(len(built)))
+    if case["read"].endswith("reversed"):
+        idxs.reverse()
+    out = [None] * len(built)
+    for i in idxs:
+        out[i] = c09.seq_read(built[i], specs[i])
+    return out
+
+
+def seq_rel_diffs(case, got, ref):
+    """(rel): [(what, detail)] fields that differ between the shared run and the fresh-copy run"""
+    out = []
+    for ci, spec in enumerate(case["cubes"]):
+        g, f = got[ci], ref[ci]
+        tag = "cube%d(%s)" % (ci, spec["layout"])
+        if len(g) != len(f):
+            out.append((tag + ".partitions", {"shared": g, "fresh": f}))
+            continue
+        for si, (og, of) in enumerate(zip(g, f)):
+            for field in sorted(set(og) | set(of)):
+                if og.get(field) != of.get(field):
+                    out.append(("%s.slice%d.%s" % (tag, si, field),
+                                {"with_shared_dict": og.get(field), "with_own_fresh_copy": of.get(field),
+                                 "transforms_as_written": case["transforms"], "cube": ci, "slice": si,
+                                 "share": case.get("share"), "read": case.get("read")}))
+    return out
+
+
+def seq_refs_in_two_cubes(case, lists_of):
+    """does an element-id / subvariable-id reference of a list slot (`lists_of(dimension transforms)` ->
+    lists) name an item of two cubes of the sequence whose array dimensions have other aliases - the class
+    the leg exists for"""
+    w = c09.seq_written(case)
+    for idx, key in enumerate(SEQ_AXIS_KEYS):
+        for l in lists_of(w.get(key) or {}):
+            for x in l or []:
+                seen = set()
+                for spec in case["cubes"]:
+                    if idx < len(spec["axes"]) and spec["axes"][idx]["kind"] == "array":
+                        ax = spec["axes"][idx]
+                        i = c09.seq_resolve(str(x), ax)
+                        if i not in (None, c09.AMBIG) and str(x) != ax["aliases"][i]:
+                            seen.add(ax["aliases"][i])
+                if len(seen) >= 2:
+                    return True
+    return False
+
+
+def seq_explicit_lists(td):
+    od = td.get("order")
+    return [od.get("element_ids")] if isinstance(od, dict) and od.get("type") == "explicit" else []
+
+
+def seq_expected_base_order(case, spec, idx):
+    """(abs): payload indexes of ALL base elements of array axis idx in the order the property text gives
+    them, or None (no array axis / a reference only the id cascade can read / another order type)"""
+    if idx >= len(spec["axes"]) or spec["axes"][idx]["kind"] != "array":
+        return None
+    ax = spec["axes"][idx]
+    td = c09.seq_written(case).get(SEQ_AXIS_KEYS[idx]) or {}
+    od = td.get("order") or {}
+    listed = []
+    if od.get("type") == "explicit":
+        for x in od.get("element_ids") or []:
+            i = c09.seq_resolve(str(x), ax)
+            if i == c09.AMBIG:
+                return None
+            if i is not None and i not in listed:
+                listed.append(i)
+    elif od.get("type") not in (None, "payload_order"):
+        return None
+    return listed + [i for i in range(ax["n"]) if i not in listed]
+
+
+def seq_abs_check(case, got):
+    """-> ([(what, detail)], number of array axes checked, number of those whose listed order moves an item)"""
+    out, n_axes, n_moved = [], 0, 0
+    for ci, spec in enumerate(case["cubes"]):
+        if case["read"] == "CubeSet" or len(got[ci]) != len(spec["slices"]):
+            continue            # a CubeSet slices a categorical array by subvariable: (rel) only
+        for idx, axis in enumerate(["row"] if spec["strand"] else ["row", "column"]):
+            exp = seq_expected_base_order(case, spec, idx)
+            if exp is None:
+                continue
+            ax = spec["axes"][idx]
+            for si, og in enumerate(got[ci]):
+                o, lab = og.get(axis + "_order"), og.get(axis + "_labels")
+                if not o or o[0] != "ok":
+                    continue
+                n_axes += 1
+                n_moved += exp != sorted(exp)
+                shown = [z for z in o[1] if z >= 0]
+                want = [i for i in exp if i in set(shown)]
+                tag = "cube%d(%s).slice%d.%s" % (ci, spec["layout"], si, axis)
+                if shown != want or len(set(shown)) != len(shown):
+                    out.append((tag + ".listed_order",
+                                {"impl_order": o[1], "displayed_base_elements": shown, "property_text_order": want,
+                                 "order_of_all_base_elements": exp, "cube": ci, "slice": si,
+                                 "items": {k: ax[k] for k in ("eids", "svids", "aliases")},
+                                 "transforms_as_written": case["transforms"]}))
+                elif lab and lab[0] == "ok" and len(lab[1]) == len(o[1]):
+                    bad = [(z, l) for z, l in zip(o[1], lab[1]) if z >= 0 and l != ax["names"][z]]
+                    if bad:
+                        out.append((tag + ".labels", {"impl_labels": lab[1], "order": o[1],
+                                                      "not_the_label_of_the_element": bad[:3]}))
+    return out, n_axes, n_moved
+
+
+def _seq_replayable(case):
+    return {k: case[k] for k in ("leg", "k", "cubes", "transforms", "same_object", "share", "read", "svid_mode",
+                                 "stats") if k in case}
+
+
+def seq_dist(rep, case, two, two_key):
+    p = SEQ_LEG + ":"
+    rep.dist(p + "sequences")
+    rep.dist(p + "cubes-in-sequence=%d" % len(case["cubes"]))
+    rep.dist(p + "read:" + case["read"])
+    rep.dist(p + "one-object:" + case.get("share", "whole"))
+    rep.dist(p + "subvariable-ids:" + case["svid_mode"])
+    for spec in case["cubes"]:
+        rep.dist(p + "cube:" + spec["layout"])
+        if len(spec["slices"]) > 1:
+            rep.dist(p + "3-D-cube-with-2+-slices")
+        if "repeat_of" in spec:
+            rep.dist(p + "first-cube-again-after-another")
+    for s in case["stats"]:
+        rep.dist(p + s)
+    for key in SEQ_AXIS_KEYS:
+        if key in case["transforms"]:
+            rep.dist(p + key)
+    if case.get("same_object"):
+        rep.dist(p + "rows-and-columns-are-one-dict-object")
+    if two:
+        rep.dist(p + two_key)
+
+
+def run_seq_cases(rep, cases):
+    for case in cases:
+        case = core.jsonable(case)              # what a replay file gives back
+        got = seq_run(case, shared=True)
+        ref = seq_run(case, shared=False)
+        found = [("shared-transforms-order", w, d) for w, d in seq_rel_diffs(case, got, ref)]
+        afound, n_axes, n_moved = seq_abs_check(case, got)
+        found += [("shared-transforms-listed-order", w, d) for w, d in afound]
+        two = seq_refs_in_two_cubes(case, seq_explicit_lists)
+        rep.count_case(_seq_replayable(case), two or n_moved > 0)
+        seq_dist(rep, case, two, "explicit-id-reference-names-an-item-in-2+-cubes-with-other-aliases")
+        rep.dist(SEQ_LEG + ":array-axes:absolute-oracle", n_axes)
+        rep.dist(SEQ_LEG + ":array-axes:listed-order-moves-an-item", n_moved)
+        if two:
+            rep.sample({"leg": SEQ_LEG, "transforms": case["transforms"], "share": case["share"],
+                        "cubes": [c["layout"] for c in case["cubes"]], "read": case["read"]}, limit=4)
+        for kind, what, detail in found:
+            rep.violation(kind, _seq_replayable(case), dict(detail, what=what),
+                          {"what": what.split(".")[-1], "leg": SEQ_LEG,
+                           "kinds": "+".join(c["layout"] for c in case["cubes"])})
+
+
+# ------------------------------------------------------------------------------------
 # exhaustive small scope (thorough tier): every anchor spelling x explicit list x hidden set
 # ------------------------------------------------------------------------------------
 
@@ -765,6 +1141,9 @@ def run(tier, seed):
     cases += [gen_stale_ref_case(rng_sr, len(cases) + k, ("explicit",) if k < n_sr // 2 else ("explicit", "hide"))
               for k in range(n_sr)]
     coq_s, n_terms = run_cases(rep, cases, probe=True)
+    n_seq = N_SEQ_QUICK if tier == "quick" else 3000
+    rng_seq = random.Random("C07/%s/%s" % (SEQ_LEG, seed))     # own stream: the cases above stay as they were
+    run_seq_cases(rep, [gen_seq_case(rng_seq, k) for k in range(n_seq)])
     rep.cov["rule"] = (
         "cases from random.Random(seed): CAT / MR (with derived before/after/top/bottom items) / CA "
         "dimensions of 0..6 valid elements (ids incl. -1, 0, 32767, missing categories anywhere), "
@@ -782,7 +1161,18 @@ def run(tier, seed):
         "rename keys (second half) naming references that match nothing: negative ints / numeric strings "
         "in -n..-1 and below -n, numbers >= n, non-numeric strings (distribution keys leg-c:<dimension "
         "kind>:<slot>:<class>); leg (c) itself runs on every case of every stream. non-trivial = some "
-        "insertion, explicit order, prune or array dimension present; distinct by content hash")
+        "insertion, explicit order, prune or array dimension present; distinct by content hash; + leg (d) "
+        "(shared-transforms:* keys, own random stream): N_SEQ sequences of 2 (75%) or 3 cubes over different array "
+        "variables of 2..5 items (layouts and surveys of C09's leg (c); third cube = the first again 30%; view "
+        "insertions on 40% of the categorical dimensions), ONE transforms object for the sequence (whole dict 60%, "
+        "dimension dicts 20%, 'order' / 'elements' level 20%; rows+columns 45%, rows 35%, columns 20%; one dict "
+        "for both axes 15% of rows-only): explicit order 88% (1..4 references, 75% element id / subvariable id of "
+        "the first cube's array, else any spelling of any cube incl. alias and category id; ids as int or string; "
+        "6% name nothing; 20% a repeat), payload_order 6%, hide 25%, prune 25%, transforms insertions 35% of the "
+        "axes that face a categorical dimension; read interleaved 55%, all built first 18%, reversed 9%, as the "
+        "cubes of a CubeSet 18%; every sequence is run a second time with a pristine deep copy per cube; "
+        "non-trivial = an id reference of the explicit list names an item in two cubes with other aliases, or a "
+        "listed order moves an item of an array axis").replace("N_SEQ", str(n_seq))
     rep.cov["coq_eval_seconds"] = round(coq_s, 2)
     rep.cov["model_terms_evaluated"] = n_terms
     rep.assumptions = [
@@ -821,7 +1211,10 @@ def replay(path):
     case.setdefault("malformed", False)
     rep = core.Report(PID, "quick", d.get("seed", 0))
     rep.findings = []          # a replay shows everything that still differs
-    run_cases(rep, [case])
+    if case.get("leg") == SEQ_LEG:
+        run_seq_cases(rep, [case])
+    else:
+        run_cases(rep, [case])
     for v in rep.violations:
         print("REPLAY still fails:", json.dumps(core.jsonable(v["detail"]))[:700])
     if not rep.violations:
